@@ -714,7 +714,84 @@ def shard_partpop(acc, shard, nshards, params):
     core.drive(acc, "partpop", case_partpop, gen(), shard, nshards, family="partitioned-populate[N=%d]" % n)
 
 
-CASES = {"partpop": case_partpop, "opkinds": case_opkinds, "history": bfs.replay_case, "kernel": case_kernel, "explicit": case_explicit,
+# ---------------------------------------------------------------------------
+# (e) lazy fibers across a session boundary: what a co-iteration records (and whether it works at all) depends on
+# the session it is ITERATED in, not on the one it was built in
+
+def case_lazyboundary(case):
+    ac, bc = case
+    out = []
+    prefix = os.path.join(core.scratch(), "c15lb")
+    feats = {"lazy_fiber_crosses_session_boundary"}
+
+    def mk():
+        a, b = mkfiber(ac, 1), mkfiber(bc, 2)
+        a.getRankAttrs().setId("K")
+        b.getRankAttrs().setId("K")
+        return a, b
+
+    def session(built_outside):
+        a, b = mk()
+        lz = (a & b) if built_outside else None
+        Metrics.beginCollect(prefix)
+        try:
+            for t in ("iter", "intersect_0", "intersect_1"):
+                Metrics.trace("K", t)
+            if lz is None:
+                lz = a & b
+            got = [k for k, _ in lz]
+        finally:
+            Metrics.endCollect()
+        return got, _files(prefix)
+    try:
+        a, b = mk()
+        ref = [k for k, _ in a & b]
+        g0, f0 = session(False)
+        g1, f1_ = session(True)
+        if g0 != ref or g1 != ref:
+            out.append(("transparency", "output-differs-with-collection-on", feats, ref, [g0, g1]))
+        if f1_ != f0:
+            out.append(("traces", "rows-depend-on-where-the-lazy-fiber-was-built", feats | {"built:before-the-session"},
+                        f0, f1_))
+        # built inside a session, iterated after it ended
+        a, b = mk()
+        Metrics.beginCollect(prefix)
+        try:
+            Metrics.trace("K", "iter")
+            lz = a & b
+        finally:
+            Metrics.endCollect()
+        _files(prefix)
+        try:
+            g2 = [k for k, _ in lz]
+            if g2 != ref:
+                out.append(("transparency", "output-differs-after-the-session", feats | {"built:inside-a-session"},
+                            ref, g2))
+        except Exception as ex:
+            out.append(("transparency", "exception:" + type(ex).__name__,
+                        feats | {"built:inside-a-session", "iterated:after-endCollect", "site:" + core.exc_site(ex)},
+                        ref, core.tb_tail(ex)))
+        core.CUR.nt("lazyboundary")
+    except Exception as ex:
+        if Metrics.isCollecting():
+            try:
+                Metrics.endCollect()
+            except Exception:
+                Metrics.collecting = False
+        _files(prefix)
+        out.append(("transparency", "exception:" + type(ex).__name__, feats | {"site:" + core.exc_site(ex)}, None,
+                    core.tb_tail(ex)))
+    return out
+
+
+def shard_lazyboundary(acc, shard, nshards, params):
+    from mc.univ import f1 as _f1
+    u = _f1(params)
+    core.drive(acc, "lazyboundary", case_lazyboundary, ((a, b) for a in u for b in u), shard, nshards,
+               family="lazy-across-session-boundary[pairs of F1(%d)]" % params)
+
+
+CASES = {"lazyboundary": case_lazyboundary, "partpop": case_partpop, "opkinds": case_opkinds, "history": bfs.replay_case, "kernel": case_kernel, "explicit": case_explicit,
          "assign_leaf": case_assign_leaf}
 
 
@@ -746,6 +823,11 @@ def run(ctx):
     if not ctx.only or "assign" in ctx.only:
         ctx.shards(shard_assign_leaf, (3, (-1, 0, 1, 2)) if q else (4, (-1, 0, 1, 2)))
         ctx.bounds["union-assign"] = "Z_m = A_m + B_m through z << (a | b) and z_ref <<= a + b, all vector pairs over {-1,0,1,2}"
+    if not ctx.only or "lazyboundary" in ctx.only:
+        ctx.shards(shard_lazyboundary, 3)
+        ctx.bounds["lazy-across-session-boundary"] = ("a & b over pairs of F1(3): built before the session and iterated in it "
+                                                      "(same trace files as built inside), built in a session and iterated "
+                                                      "after it ended (works, same result)")
     if not ctx.only or "partpop" in ctx.only:
         ctx.shards(shard_partpop, (4 if q else 5,))
         ctx.bounds["partitioned-populate"] = ("z (F1(N,{-,v}), declared shape) populated from two successive partitions, the second "
